@@ -504,6 +504,13 @@ def process(template_path, out=None, unit=None, depth=0):
                         raise AnchorLoss('%s: subst anchor `%s` missing in %s' % (unit, a, sel))
                     text2 = text2.replace(a, b)
                     log.append('T5 type subst %s -> %s' % (a, b))
+            if 'noeq' in opts:
+                # the unit supplies a specified `impl PartialEq` (structural equality as a TRUSTED contract) instead of the derive
+                def _ne(m):
+                    ds = [d.strip() for d in m.group(1).split(',') if d.strip() not in ('PartialEq', 'Eq', '')]
+                    return '#[derive(%s)]' % ', '.join(ds) if ds else ''
+                text2 = re.sub(r'#\[derive\(([^)]*)\)\]', _ne, text2)
+                log.append('T3 derive(PartialEq, Eq) replaced by a specified impl in the template')
             for o in opts:
                 if o.startswith('rrg='):
                     text2 = '#[verifier::reject_recursive_types_in_ground_variants(%s)]\n' % o[4:] + text2
